@@ -112,6 +112,6 @@ pub fn run(ctx: &mut Ctx) {
             }
         }
     };
-    ctx.cases("small", ctx.n(6000, 100000), 0, |case| body(case, false));
-    ctx.cases("multi_block", ctx.n(60, 1000), 0, |case| body(case, true));
+    ctx.cases("small", ctx.n(6000, 250000), 0, |case| body(case, false));
+    ctx.cases("multi_block", ctx.n(60, 2500), 0, |case| body(case, true));
 }
